@@ -73,7 +73,7 @@ theorem relative_defined (b p : Str) :
     cases B' with
     | nil =>
       have : ¬ (denote p).ups < (denote b).ups := fun h => by simpa using hhead.2 h
-      simp [hasPrefix]
+      simp [hasPrefix_eq_canon, hasPrefixCanon]
       omega
     | cons x X =>
       by_cases hx : x = dotdot
